@@ -34,6 +34,8 @@ func c01Menu(w *mintops.W) []string {
 		}
 		if m.Known == "none" {
 			ops = append(ops, fmt.Sprintf("pollm|%d|S", j), fmt.Sprintf("pollm|%d|F", j), fmt.Sprintf("pollm|%d|P", j))
+			// the state check itself is the first to learn the outcome
+			ops = append(ops, "check|0,1|S", "check|0,1|F")
 		}
 	}
 	if np > 0 {
@@ -62,14 +64,14 @@ var c01All = specMap(c01Specs(true), c01Specs(false))
 func init() {
 	register(&Prop{ID: "C01", Level: "model_checking", QuickBudget: 100 * time.Second, ThoroughBudget: 25 * time.Minute,
 		Run: func(c *rt.Ctx) {
-			c.Cov["rule"] = "E3: every operation sequence up to the depth bound over the alphabet {swap of p0/p1 (plain, duplicated in one request, changed witness / DLEQ pointer / amount field, both), melt quote, melt x {Succeeded, Pending, Failed->NotFound}, poll x {Succeeded, Failed, Pending}, state check, restart}; a state is distinct by its canonical form (proof states in store and model, quote states, Lightning payment states); in every state each used proof is re-presented and the state-check endpoint compared with the model"
+			c.Cov["rule"] = "E3: every operation sequence up to the depth bound over the alphabet {swap of p0/p1 (plain, duplicated in one request, changed witness / DLEQ pointer / amount field, both), melt quote, melt x {Succeeded, Pending, Failed->NotFound}, poll x {Succeeded, Failed, Pending}, state check x {Pending, Succeeded, Failed} (the check itself learning the outcome), restart}; a state is distinct by its canonical form (proof states in store and model, quote states, Lightning payment states); in every state each used proof is re-presented and the state-check endpoint compared with the model"
 			runSpecs(c, c01Specs(c.Quick()))
 			c.Cov["rule_schedules"] = "E1: for each scenario every interleaving of the concurrent API calls at MintDB / Lightning call granularity with at most B preemptions (iterative bounding 0..B); oracle per execution: each secret consumed by at most one successful operation (swap returned signatures / melt's payment succeeded or is in flight at the backend), consumed proofs end SPENT or PENDING, state checks monotone, no value created"
 			if c.Quick() {
-				runSched(c, "C01", []string{"S1-swap-swap", "S2-swap-melt", "S3-melt-melt", "S5-swap-swapvariant", "S6-pendingmelt-poll-swap", "S8p-swap-melt-pending", "S8f-swap-melt-failed", "S10-melt-poll-swap", "S11-failedmelt-poll-remelt-swap"}, 2)
+				runSched(c, "C01", []string{"S1-swap-swap", "S2-swap-melt", "S3-melt-melt", "S5-swap-swapvariant", "S6-pendingmelt-poll-swap", "S8p-swap-melt-pending", "S8f-swap-melt-failed", "S10-melt-poll-swap", "S11-failedmelt-poll-remelt-swap", "S12f-meltfails-remelt-swap"}, 2)
 			} else {
 				runSched(c, "C01", []string{"S1-swap-swap", "S2-swap-melt", "S3-melt-melt", "S4-swap-melt-check", "S5-swap-swapvariant", "S6-pendingmelt-poll-swap", "S6f-pendingmelt-failed-poll-swap", "S8p-swap-melt-pending", "S8f-swap-melt-failed", "S9-two-input-overlap", "S10-melt-poll-swap"}, 3)
-				runSched(c, "C01", []string{"S11-failedmelt-poll-remelt-swap"}, 2)
+				runSched(c, "C01", []string{"S11-failedmelt-poll-remelt-swap", "S12f-meltfails-remelt-swap", "S12n-meltnotfound-remelt-swap"}, 2)
 				runSched(c, "C01", []string{"S7-swap-swap-melt"}, 2)
 			}
 		},
